@@ -30,6 +30,9 @@ func rr(lo, hi rune) citem {
 	return citem{text: escClassCh(lo) + "-" + escClassCh(hi), sexpr: fmt.Sprintf("(r %d %d)", lo, hi), ascii: lo < 128 && hi < 128}
 }
 
+// ci marks an item as usable under IgnoreCase although its end-points are not ASCII.
+func ci(it citem) citem { it.ascii = true; return it }
+
 func sh(c byte) citem {
 	neg := 0
 	lc := strings.ToLower(string(c))
@@ -57,6 +60,9 @@ func classItems() []citem {
 	return []citem{
 		r1('a'), r1('b'), r1('m'), r1('z'), r1('A'), r1('Z'), r1('0'), r1('9'), r1('_'), r1(' '), r1('\n'), r1('-'), r1('é'), r1('σ'), r1('ж'), r1('k'), r1(0x10000),
 		rr('a', 'c'), rr('a', 'z'), rr('A', 'Z'), rr('0', '9'), rr('b', 'y'), rr(0, 0x7f), rr('б', 'д'), rr('α', 'ω'), rr(0x80, 0x10FFFF), rr('X', 'c'),
+		// cased letters outside ASCII whose case partner is a simple pair (usable under IgnoreCase): Latin-1,
+		// Cyrillic, fullwidth forms (above the end of the BMP upper->lower table), Deseret and Adlam (astral)
+		ci(r1('é')), ci(r1('Ж')), ci(rr('б', 'д')), ci(rr(0xFF41, 0xFF5A)), ci(r1(0xFF31)), ci(r1(0x10428)), ci(rr(0x10400, 0x10427)), ci(r1(0x1E922)),
 		sh('d'), sh('w'), sh('s'), sh('D'), sh('W'), sh('S'),
 		pp("Lu", false), pp("Ll", false), pp("L", true), pp("Nd", false), pp("Greek", false), pp("Cyrillic", true), pp("P", false), pp("Lu", true), pp("Zs", false), pp("Mn", false),
 		posix("alpha"), posix("digit"), posix("upper"), posix("space"), posix("word"), posix("alnum"), posix("punct"), posix("xdigit"),
